@@ -9,15 +9,16 @@
   The RFC 5545 reading of the generated component is `ICal.Tz.specAt` on `toObs`.
 -/
 import ICal.Model.Tz
+import ICal.Gen.Cal
 namespace ICal.TzGen
 open ICal.Tz (Obs)
 
-/-- `Timezone._from_tzinfo_skip_search` in seconds (compared with the live attribute on every run) -/
-def skipSearch : List Int :=
-  [5529600, 2764800, 1382400, 691200, 345600, 172800, 86400, 14400, 3600, 1200, 300, 60, 20, 5, 1]
+/-- `Timezone._from_tzinfo_skip_search` in seconds: the *generated* list (regenerated from cal.py on
+    every run; also compared with the live attribute by the correspondence run) -/
+def skipSearch : List Int := Gen.skipSearch.map Int.ofNat
 
-/-- the coarsest step: 64 days -/
-def maxStep : Int := 5529600
+/-- the coarsest step (64 days in the current source) -/
+def maxStep : Int := Int.ofNat (Gen.skipSearch.foldl Nat.max 0)
 
 structure Info where
   off : Int
